@@ -71,6 +71,13 @@ def known_findings(pid):
 def ensure_makefile():
     mk = os.path.join(COQ, "Makefile")
     cp = os.path.join(COQ, "_CoqProject")
+    files = []
+    for d in ("Base", "Gen", "Model", "Proofs", "Properties"):
+        files += sorted(os.path.relpath(p, COQ) for p in glob.glob(os.path.join(COQ, d, "**", "*.v"), recursive=True))
+    want = "-Q . Verif\n" + "\n".join(files) + "\n"
+    if not os.path.exists(cp) or open(cp).read() != want:
+        with open(cp, "w") as f:
+            f.write(want)
     if not os.path.exists(mk) or os.path.getmtime(mk) < os.path.getmtime(cp):
         rc, out, _ = sh("coq_makefile -f _CoqProject -o Makefile", cwd=COQ, timeout=120)
         if rc != 0:
@@ -83,8 +90,13 @@ def run_gen(prop, log):
     if not gens:
         return True, ""
     ok, msgs = True, []
+    hdir = os.path.join(VERIF, "harness")
+    rc, out, dt = sh(["go", "build", "-o", os.path.join(BUILD, "verifgen"), "./gen"], cwd=hdir, timeout=900, env=GOENV)
+    log.append("go build harness/gen rc=%d %.1fs" % (rc, dt))
+    if rc != 0:
+        return False, "translator does not build: " + out[-1500:]
     for g in gens:
-        rc, out, _ = sh([os.path.join(BUILD, "harness"), "gen", g, "-repo", REPO, "-coq", COQ], timeout=300, env=GOENV)
+        rc, out, _ = sh([os.path.join(BUILD, "verifgen"), g, "-repo", REPO, "-coq", COQ], timeout=300, env=GOENV)
         log.append("gen %s rc=%d %s" % (g, rc, out.strip()[-400:]))
         if rc != 0:
             ok = False
@@ -211,14 +223,18 @@ def build_modelrun(prop, log):
 # ---------------------------------------------------------------------------------------------
 # Go side
 # ---------------------------------------------------------------------------------------------
-def build_harness(log):
+def harness_exe(pid):
+    return os.path.join(BUILD, "harness-" + pid)
+
+
+def build_harness(log, pid):
     hdir = os.path.join(VERIF, "harness")
     try:
         shutil.copy(os.path.join(REPO, "go.sum"), os.path.join(hdir, "go.sum"))
     except OSError:
         pass
-    rc, out, dt = sh(["go", "build", "-tags", "verif", "-o", os.path.join(BUILD, "harness"), "."], cwd=hdir, timeout=1800, env=GOENV)
-    log.append("go build harness rc=%d %.1fs" % (rc, dt))
+    rc, out, dt = sh(["go", "build", "-tags", "verif", "-o", harness_exe(pid), "./" + pid.lower()], cwd=hdir, timeout=1800, env=GOENV)
+    log.append("go build harness/%s rc=%d %.1fs" % (pid.lower(), rc, dt))
     return rc == 0, out
 
 
@@ -230,7 +246,7 @@ def run_harness(prop, tier, seed, rundir, log, extra=()):
         if os.path.exists(f):
             os.remove(f)
     corpus = os.path.join(VERIF, "corpus", pid)
-    cmd = [os.path.join(BUILD, "harness"), pid.lower(), "-out", cases, "-stats", stats, "-seed", str(seed), "-tier", tier,
+    cmd = [harness_exe(pid), "-out", cases, "-stats", stats, "-seed", str(seed), "-tier", tier,
            "-cur", os.path.join(rundir, "current.case")]
     if os.path.isdir(corpus):
         cmd += ["-corpus", corpus]
@@ -436,10 +452,8 @@ def main():
 
     # ---- build: harness first (the translator lives in it), then Gen, Coq, extraction ---------
     with Lock("build"):
-        ok_h, out_h = build_harness(log)
-        gen_ok, gen_msg = (True, "")
-        if ok_h:
-            gen_ok, gen_msg = run_gen(prop, log)
+        ok_h, out_h = build_harness(log, pid)
+        gen_ok, gen_msg = run_gen(prop, log)
         cq = coq_build(prop, log)
         aud = audit()
         ok_m, msg_m = build_modelrun(prop, log)
@@ -626,13 +640,13 @@ def do_replay(prop, path, log):
         print("replay: this file records a broken obligation / crash, not a single input; see its fields above")
         return 1
     with Lock("build"):
-        ok_h, out_h = build_harness(log)
+        ok_h, out_h = build_harness(log, pid)
         ok_m, msg_m = build_modelrun(prop, log)
     if not ok_h or not ok_m:
         print("build failed", out_h[-2000:], msg_m)
         return 2
     line = "%s\t%d\t%s" % (r["stream"], r["which"], r["case"])
-    rc, out, _ = sh([os.path.join(BUILD, "harness"), pid.lower(), "-replay", line], timeout=600, env=GOENV)
+    rc, out, _ = sh([harness_exe(pid), "-replay", line], timeout=600, env=GOENV)
     res = [l for l in out.splitlines() if l.count("\t") >= 3]
     if rc != 0 or not res:
         print("implementation run failed (rc=%d):\n%s" % (rc, out[-3000:]))
